@@ -108,8 +108,8 @@ theorem asyncAttrsOk_filter (itemAttrs : List Attr) :
 /-! ### per method -/
 
 theorem asyncImplOk_delegating (mode : InputMode) (ind : ImplIndirection) (src : Sig) (tf : TraitFn)
-    (h1 : tf.sig.async_ = src.async_) (h2 : tf.sig.output = src.output) (h3 : tf.originallyAsync = src.async_) :
-    asyncImplOk src (.fn [] tf.sig (some (delegatingBody mode ind tf))) = true := by
+    (h1 : tf.sig.async_ = src.async_) (h2 : tf.sig.output = src.output) (h3 : tf.originallyAsync = src.async_) (as : List Attr := []) :
+    asyncImplOk src (.fn as tf.sig (some (delegatingBody mode ind tf))) = true := by
   unfold asyncImplOk delegatingBody
   simp only [h1, h2, h3, beq_self_eq_true, Bool.true_and]
   have := body_await (if (mode == InputMode.implBlock) = true then [i "Self"] ++ pathSep else []) tf.sig.ident
@@ -157,7 +157,8 @@ theorem T_C12_mod (v : Variant) (attr : Toks) (m : ModItemIn) (out : Out)
   simp only [expand] at h
   split at h
   · simp at h
-  · obtain ⟨items, a, fns, tg, depMode, implBlock, h0, h1, h2, _, h4, rfl⟩ := expandMod_ok h
+  · obtain ⟨items, a, fns0, fns, tg, depMode, implBlock, h0, h1, h2, hfns, _, h4, rfl⟩ := expandMod_ok h
+    subst hfns
     have him := genImplBlock_ok h4
     simp only [P_C12, effectiveOpts, h1, Out.view, View.items, Out.inside, Out.after, traitsOf, implsOf, List.cons_append,
       List.nil_append, mainImpl?, List.getLast?_singleton, Item.srcSigs, Item.sourceFns, h0, Item.attrs, List.all_cons,
@@ -169,25 +170,26 @@ theorem T_C12_mod (v : Variant) (attr : Toks) (m : ModItemIn) (out : Out)
       simp only [genTraitDef]
       rw [filter_sig_all _ _ (fun _ => rfl), zipAll_map_right]
       simp only [asyncDeclOkM, GenMember.sig?]
-      exact analyzeFns_zip .selfRef (v.apply a.opts)
+      exact analyzeFns_zip_cfg .selfRef (v.apply a.opts)
         (fun s tf => asyncDeclOk (containsAsyncTrait m.attrs) (v.apply a.opts).futureSendValue s
-          (makeTraitFnSig tf.sig m.attrs (v.apply a.opts))) _ {} tg fns
+          (makeTraitFnSig tf.sig m.attrs (v.apply a.opts))) (fun _ _ _ => rfl) _ {} tg fns0 _
         (by
           intro s _ tg0 tf tg1 han
           have hs := fnModeSpec han
           exact asyncDeclOk_make m.attrs (v.apply a.opts) s tf hs.async_ hs.output) h2
     · rw [him]
       simp only [zipAll_map_right]
-      exact ⟨analyzeFns_zip .selfRef (v.apply a.opts)
-        (fun s tf => asyncImplOk s (.fn [] tf.sig (some (delegatingBody .module .none tf)))) _ {} tg fns
+      exact ⟨analyzeFns_zip_cfg .selfRef (v.apply a.opts)
+        (fun s tf => asyncImplOk s (.fn tf.attrs tf.sig (some (delegatingBody .module .none tf)))) (fun _ _ _ => rfl) _ {} tg fns0 _
         (by
           intro s _ tg0 tf tg1 han
           have hs := fnModeSpec han
-          exact asyncImplOk_delegating _ _ s tf hs.async_ hs.output hs.origAsync) h2, asyncAttrsOk_filter _⟩
+          exact asyncImplOk_delegating _ _ s tf hs.async_ hs.output hs.origAsync tf.attrs) h2, asyncAttrsOk_filter _⟩
 
 theorem T_C12_impl (v : Variant) (attr : Toks) (m : ImplItemIn) (out : Out)
     (h : expand v attr (.impl m) = .ok out) : P_C12 v attr (.impl m) out.view = true := by
-  obtain ⟨items, a, fns, tg, depMode, implBlock, h0, h1, h2, _, h4, rfl⟩ := expandImpl_ok h
+  obtain ⟨items, a, fns0, fns, tg, depMode, implBlock, h0, h1, h2, hfns, _, h4, rfl⟩ := expandImpl_ok h
+  subst hfns
   have him := genImplBlock_ok h4
   have hnd : (v.apply a.opts).noDepsValue = false := impl_noDepsValue h1
   simp only [P_C12, effectiveOpts, h1, Out.view, View.items, Out.inside, Out.after, traitsOf, implsOf,
@@ -195,13 +197,13 @@ theorem T_C12_impl (v : Variant) (attr : Toks) (m : ImplItemIn) (out : Out)
     List.all_nil, Bool.true_and, Bool.and_eq_true]
   rw [him]
   simp only [zipAll_map_right]
-  exact ⟨analyzeFns_zip _ (v.apply a.opts)
-    (fun s tf => asyncImplOk s (.fn [] tf.sig (some (delegatingBody .implBlock
-      (if a.dynRef then .dynamic m.selfTy else .static_ m.selfTy) tf)))) _ {} tg fns
+  exact ⟨analyzeFns_zip_cfg _ (v.apply a.opts)
+    (fun s tf => asyncImplOk s (.fn tf.attrs tf.sig (some (delegatingBody .implBlock
+      (if a.dynRef then .dynamic m.selfTy else .static_ m.selfTy) tf)))) (fun _ _ _ => rfl) _ {} tg fns0 _
     (by
       intro s _ tg0 tf tg1 han
       have hs := implModeSpec hnd han
-      exact asyncImplOk_delegating _ _ s tf hs.async_ hs.output hs.origAsync) h2, asyncAttrsOk_filter _⟩
+      exact asyncImplOk_delegating _ _ s tf hs.async_ hs.output hs.origAsync tf.attrs) h2, asyncAttrsOk_filter _⟩
 
 /-! ### trait mode -/
 
